@@ -107,6 +107,11 @@ class Sim:
         elif action == "cancel":
             assert j["state"] in ACTIVE
             self._set(j, "CANCELLED")
+        elif action == "requeue":
+            # Slurm requeues a job after e.g. a node failure: same job id, pending again
+            assert j["state"] in ("FAILED", "TIMEOUT")
+            self._set(j, "PENDING")
+            j["in_queue"] = True
         elif action == "forget":
             j["in_queue"] = False
         else:
